@@ -186,21 +186,37 @@ theorem conversion_entry_arrival_never_fails (P : Params) (h : Nat) (keymr : Str
 
 /-! ### on every reachable ledger -/
 
-/-- the history is consistent along every chain: every row of `pn_history_transaction` belongs to a
-    recorded batch (so an entry that is not recorded has no row yet) -/
+/-- the history and holding tables are consistent along every chain: every row of
+    `pn_history_transaction` and every held entry belongs to a recorded batch (so an entry that is not
+    recorded has neither a history row nor a holding row yet) -/
 theorem history_consistent_along_every_chain (P : Params) (chain : List Block) :
-    HistOK (runBlocks P (freshNode P) chain).db :=
-  runBlocks_histOK P _ chain (histOK_fresh P)
+    HistHoldOK (runBlocks P (freshNode P) chain).db :=
+  runBlocks_histHoldOK P _ chain (histHoldOK_fresh P)
 
-/-- **No transaction-chain entry block made of transfer-only and invalid entries can fail, after
-    any chain.** `HarmlessEntry`: the entry does not validate, or it is a batch of plain transfers
-    (any number, any outputs, any amounts, funded or not) of one sender other than the burn address.
-    The hypothesis `hfresh` of `transfer_entry_never_fails` is discharged by the invariant. -/
+/-- **After any chain, no entry block of the transaction chain can fail on arrival.** Every entry is
+    of one of three kinds: it does not validate (skipped); it holds a conversion (recorded and put in
+    holding); or it is transfer-only — then, with what the decoder guarantees (`PlainTransfer`) and a
+    sender other than the burn address, it is recorded and applied or rejected for lack of funds.
+    `HarmlessEntry` is that trichotomy with the side conditions of the third case; the freshness
+    hypotheses of `transfer_entry_never_fails` / `conversion_entry_arrival_never_fails` are discharged
+    by the invariant. -/
 theorem harmless_tx_block_never_fails_after_any_chain (P : Params) (chain : List Block) (h : Nat) (keymr : String)
     (es : List TxEntry) (he : ∀ e ∈ es, HarmlessEntry P h e) :
     ∃ s', applyTransactionBlock P h keymr es (runBlocks P (freshNode P) chain).db = .ok () s' := by
   obtain ⟨s', h', _⟩ := harmless_tx_block_never_fails P h keymr es _ (history_consistent_along_every_chain P chain) he
   exact ⟨s', h'⟩
+
+/-- the trichotomy: an entry whose transfer-only case meets the side conditions is harmless -/
+theorem every_entry_is_harmless (P : Params) (h : Nat) (e : TxEntry)
+    (hside : e.validAt P h = true → e.hasConversions P = false →
+      ∃ a, a ≠ burnAddrAt P h ∧ (∀ t ∈ e.txs, t.inAddr = a) ∧ ∀ t ∈ e.txs, PlainTransfer P t) :
+    HarmlessEntry P h e := by
+  cases hv : e.validAt P h with
+  | false => exact Or.inl hv
+  | true =>
+    cases hc : e.hasConversions P with
+    | true => exact Or.inr (Or.inl hc)
+    | false => exact Or.inr (Or.inr (hside hv hc))
 
 /-! ### liveness of the execution of held batches -/
 
@@ -253,3 +269,4 @@ end Pegnet.C08
 #print axioms Pegnet.C08.harmless_tx_block_never_fails_after_any_chain
 #print axioms Pegnet.C08.held_batch_execution_never_fails
 #print axioms Pegnet.C08.batch_with_rates_never_fails
+#print axioms Pegnet.C08.every_entry_is_harmless
